@@ -165,3 +165,17 @@ func VerifC11_q_sameKeyBatch() {
 		verifAssert("C11/same-key-batch-ip", got[i].IP.Equal(net.ParseIP(ips[i])) && got[i].KeyObj.KeyInDB == key, "an entry of a same-key batch reached the plugin with another IP or key")
 	}
 }
+
+// BOUND: the comparison the list API sorts by for sort = ip / ip asc / default / ip desc, on three entries whose addresses are drawn from 8 IPv4 texts of three subnets whose octets cross (a smaller octet followed by a larger one and vice versa; one-, two- and three-digit octets): it must be a strict total order on distinct addresses (irreflexive, asymmetric, transitive, total) -- every page of the list is a separate request that sorts the entries again from an arbitrary initial order, so only a total order makes the pages partition the list
+func VerifC11_q_ipSortIsOrder() {
+	ips := []string{"10.0.70.17", "10.0.80.3", "10.0.80.10", "10.0.9.200", "10.49.27.205", "10.173.13.2", "9.255.0.1", "10.0.70.170"}
+	arr := []FloatingIP{{IP: ips[nondetChoice(len(ips))]}, {IP: ips[nondetChoice(len(ips))]}, {IP: ips[nondetChoice(len(ips))]}}
+	less := sortFunc(nondetPick("ip", "ip asc", "", "ip desc"))
+	ab, ba := less(0, 1, arr), less(1, 0, arr)
+	bc, ac := less(1, 2, arr), less(0, 2, arr)
+	verifReach("compared")
+	verifAssert("C11/ip-sort-irreflexive", !less(0, 0, arr), "the IP sort order ranks an entry before itself")
+	verifAssert("C11/ip-sort-asymmetric", !(ab && ba), "the IP sort order ranks "+arr[0].IP+" before "+arr[1].IP+" and also after it")
+	verifAssert("C11/ip-sort-total", arr[0].IP == arr[1].IP || ab || ba, "the IP sort order leaves "+arr[0].IP+" and "+arr[1].IP+" unordered: pages of separate requests need not partition the list")
+	verifAssert("C11/ip-sort-transitive", !(ab && bc) || ac, "the IP sort order is not transitive on "+arr[0].IP+", "+arr[1].IP+", "+arr[2].IP)
+}
